@@ -1175,6 +1175,18 @@ class PureInterp:
                         return cv
                 if ("attr:" + n.attr) in self.hooks:
                     return ("hookattr", n.attr, o)
+                if o.__dict__["_attrs"].get("__exc__") or o._name.startswith("exc:"):
+                    # what BaseException / click.ClickException give every exception object
+                    if n.attr == "format_message":
+                        return lambda: str(o.__dict__["_attrs"].get("message", o))
+                    if n.attr == "exit_code":
+                        return 1
+                    if n.attr == "with_traceback":
+                        return lambda tb=None: o
+                    if n.attr == "add_note":
+                        return lambda note: None
+                    if n.attr in ("__cause__", "__context__", "__traceback__", "__notes__"):
+                        return None
                 raise Raised("AttributeError", n.attr)
         if isinstance(o, FuncRef):
             return FuncRef(o.name + "." + n.attr)
